@@ -29,8 +29,13 @@ class KeyMap:
             lo, hi = BOUNDS[kd]
             if md == "small":
                 v = i if lo < 0 else i + self.span
-            else:  # extreme: lower half at lo, upper half at hi
-                v = lo + (i + self.span) if i < 0 else hi - (self.span - i)
+            else:  # extreme: three zones -- hugging lo, around the middle of the range, hugging hi
+                if i < 4:
+                    v = lo + (i + self.span)
+                elif i < 12:
+                    v = (lo + hi + 1) // 2 + (i - 8)
+                else:
+                    v = hi - (self.span - i)
             assert lo <= v <= hi, (i, v)
         elif kd == "O":
             if md == "none-int":
